@@ -49,7 +49,19 @@ where
 {
     let path = path.as_ref();
 
-    // Create the directory (and parents if needed)
+    // Create the directory (and parents if needed). Every component this call creates must be
+    // owner-only from the start, not only the last one: create_dir_all would give missing
+    // parents the process default (0777 & !umask), and a writable parent lets others replace
+    // the protected directory below it.
+    #[cfg(unix)]
+    {
+        use std::os::unix::fs::DirBuilderExt;
+        std::fs::DirBuilder::new()
+            .recursive(true)
+            .mode(0o700)
+            .create(path)?;
+    }
+    #[cfg(not(unix))]
     std::fs::create_dir_all(path)?;
 
     // Apply platform-specific permissions
